@@ -311,9 +311,77 @@ func jShape(e js.IExpr) string {
 		}
 		return "(" + x.Op.String() + " " + jShape(x.X) + ")"
 	case *js.BinaryExpr:
+		// (e1,..,en) OP r  ==  e1,..,(en OP r): serialise in the second form, so that the rewrite may be applied or not
+		lx := x.X
+		if g, ok := lx.(*js.GroupExpr); ok {
+			lx = g.X
+		}
+		if c, ok := lx.(*js.CommaExpr); ok && len(c.List) > 0 {
+			out := "seq["
+			for _, e := range c.List[:len(c.List)-1] {
+				out += jShape(e) + ";"
+			}
+			return out + "(" + jShape(c.List[len(c.List)-1]) + " " + x.Op.String() + " " + jShape(x.Y) + ")]"
+		}
 		return "(" + jShape(x.X) + " " + x.Op.String() + " " + jShape(x.Y) + ")"
+	case *js.CommaExpr:
+		out := "seq["
+		for i, e := range x.List {
+			if i > 0 {
+				out += ";"
+			}
+			out += jShape(e)
+		}
+		return out + "]"
+	case *js.CondExpr:
+		return "(" + jShape(x.Cond) + " ? " + jShape(x.X) + " : " + jShape(x.Y) + ")"
 	}
 	return "?"
+}
+
+var jCommaLast = []string{"b", "b&&c", "b||c", "b??c", "b==c", "b+c", "b*c", "b|c", "!b", "b?c:a", "b=c", "b<c", "b**c"}
+var jCommaOps = []string{"&&", "||", "??", "+", "*", "|", "==", "<", "**", "-", "&", "in"}
+
+// VerifJSCommaGroup (C01): the statement (a,LAST) OP d; for 13 forms of LAST and 12 operators: whether or not the
+// parentheses are dissolved ((a,b)&&c is a,b&&c), the expression tree stays the same.
+func VerifJSCommaGroup(n int) {
+	last := jCommaLast[vChoice("last", len(jCommaLast))]
+	op := jCommaOps[vChoice("op", len(jCommaOps))]
+	src := []byte("(a," + last + ") " + op + " d;")
+	if vBool("ret") {
+		src = []byte("x=function(){return (a," + last + ") " + op + " d};")
+	}
+	want, ok := jShapeOf2(src)
+	vAssume(ok)
+	w := &vWriter{}
+	err := (&Minifier{}).Minify(nil, w, &vReader{b: append([]byte(nil), src...)}, nil)
+	vReach("after-call")
+	vOutput("out", w.buf)
+	vAssert(err == nil, "accepted")
+	got, ok2 := jShapeOf2(append([]byte(nil), w.buf...))
+	vAssert(ok2, "output parses")
+	vAssert(got == want, "same expression tree: "+string(src)+" => "+string(w.buf))
+	vReach("end")
+}
+
+// jShapeOf2: shape of an expression statement, or of the returned expression of x=function(){return E}
+func jShapeOf2(src []byte) (string, bool) {
+	ast, err := js.Parse(parse.NewInputBytes(src), js.Options{})
+	if err != nil || len(ast.List) != 1 {
+		return "", false
+	}
+	st, ok := ast.List[0].(*js.ExprStmt)
+	if !ok {
+		return "", false
+	}
+	if be, ok := st.Value.(*js.BinaryExpr); ok && be.Op == js.EqToken {
+		if fd, ok := be.Y.(*js.FuncDecl); ok && len(fd.Body.List) == 1 {
+			if rs, ok := fd.Body.List[0].(*js.ReturnStmt); ok && rs.Value != nil {
+				return jShape(rs.Value), true
+			}
+		}
+	}
+	return jShape(st.Value), true
 }
 
 func jShapeOf(src []byte) (string, bool) {
